@@ -24,6 +24,24 @@ Theorem C19_frame :
 Proof. exact frame_eval. Qed.
 Print Assumptions C19_frame.
 
+(* the whole @keyframes block (any vendor spelling: C19_keyframes_names): the header stays an at-rule name, the frames stay inside
+   it, one per source frame, in source order, each with its own declarations *)
+Theorem C19_keyframes_block :
+  forall parent sc sel frames,
+    is_subparse sel = true -> is_media_name sel = false -> Forall frame_ok frames -> frames <> [] ->
+    eval_node parent sc (NBlock sel frames) =
+      ROk ([OBlock (ONIdent true (ident_parse parent sel)) [] (map frame_obj frames)], sc).
+Proof. exact keyframes_block. Qed.
+Print Assumptions C19_keyframes_block.
+
+(* inside an @media block an at-rule header is not prefixed with anything *)
+Theorem C19_header_kept_in_media :
+  forall mp mt mr toks t r,
+    mp = mt :: mr -> is_subp mt = true -> toks = t :: r -> is_subp t = true -> count_amp toks = 0 -> str_eqb t $"@media" = false ->
+    ident_parse (Some [mp]) toks = [pairwise_filter toks].
+Proof. exact at_header_in_media. Qed.
+Print Assumptions C19_header_kept_in_media.
+
 Example C19_example :
   compile_nodes (false, false, false, 1)
     [NStmt [$"@charset"; $" "; $"""utf-8"""; $";"];
